@@ -80,6 +80,11 @@ CHECKS = {
     technique="Host.tla extended with Compile / Commit(obj, valuation) (HostTrace): histories mixing compile, instantiate+commit and flushes on one connection are executed on the real SDK/controller and validated by TLC; the pre-compiled and the direct flow are also compared with each other, with and without the NV transpiler",
     text="Commit of an instantiated object is specified as Host!Flush of the same operations with the template values filled in, and compile leaves nothing pending (as a flush). Random histories (1-4 blocks of rotations with template numerators from {0,1,3,16,255}, gates, adds, conditionals, measurements; objects committed at once or after later flushes; a closing flush and array reads) run through the real pipeline in the pre-compiled flow and, where possible, in the direct flow; TLC compares controller arrays, gate log and host reads per flush/commit with the specification; with the NV transpiler the two real flows are compared with each other (gate log, arrays, reads).",
     note="Trusted: as C05. The missing builder reset in compile() was found by this check and repaired in /repo (622f2fb)."),
+ "C14": dict(
+    engine="c14", category="model_checking", design="5 C14",
+    technique="Host.tla has no register pool, so the property is a conformance statement: long histories (hundreds of completed SDK operations on one connection) must compile on the real SDK and be accepted by TLC trace validation (HostTrace)",
+    text="15 directed kinds (if with each of the six comparisons on futures, if on two futures, loop, foreach/enumerate, loop_until, add with a future operand, measure into array / register, three-deep nesting that uses the outer indices, operations with empty bodies) are repeated 40 times each with a flush after every 1st / 3rd / 10th operation, plus random mixed histories of 100-400 operations nested to depth 4; any resource error of the builder ('could not find an available loop register', 'Ran out of M-registers', ...) is a violation, and every history is validated against Host.tla so that a temporary overwriting a live loop index shows as a wrong result.",
+    note="Trusted: as C05. The register leaks of if_ez/if_nz and loop_until were found by this check and repaired in /repo (8c1ccff)."),
 }
 
 REASON_TODO = "check not built yet (work in progress; see DESIGN.md section 9)"
